@@ -10,6 +10,8 @@ missed = []
 for name in sorted(os.listdir(root)):
     if sel and not any(name.startswith(p) for p in sel):
         continue
+    if not os.path.isdir(os.path.join(root, name)):
+        continue
     meta = json.load(open(os.path.join(root, name, "meta.json")))
     prop = meta["breaks_property"]
     patch = os.path.join(root, name, "patch.diff")
